@@ -108,7 +108,25 @@ KV_TYPES = [t for t in ValueTypes if t not in (ValueTypes.CHOICES, ValueTypes.SP
 IO_TYPES = [t for t in ValueTypes if t not in (ValueTypes.CHOICES, ValueTypes.SPAWNFLAGS)]
 
 
+def _long(r: Rng, custom: bool) -> str:
+    """A long string whose line breaks (and, with the extended syntax, quotes and backslashes) crowd around the 1000
+    character split points of the exporter, so that a misplaced split lands inside an escape sequence."""
+    target = r.pick([990, 1001, 1010, 1500, 2005, 2600])
+    toks = ['word ', 'x', ' ', '\n', '\n\n', '\n\n\n', 'ab'] + (['"', '\\', '\\\\', '"\n', '\\n', '\t'] if custom else ["'"])
+    dense = r.chance(0.5)
+    out = []
+    n = 0
+    while n < target:
+        near = any(abs((n % 1000) - 995) < 12 for _ in (0,)) or n % 1000 < 6
+        t = r.pick(toks[3:] if (dense or near) and r.chance(0.8) else toks)
+        out.append(t)
+        n += len(t) + (1 if t in ('\n', '"', '\\', '\t') else 0)
+    return ''.join(out)
+
+
 def _s(r: Rng, custom: bool, allow_empty=True):
+    if r.chance(0.12):
+        return _long(r, custom)
     pool = STR_PLAIN + (STR_ESC if custom else ["apostrophe's", 'line one\nline two'])
     s = r.pick(pool)
     if not allow_empty and not s:
@@ -275,7 +293,7 @@ def gen(rng: Rng, tier: str, index: int) -> dict:
         elif x < 0.8:
             steps.append(['classnames'])
         elif x < 0.92:
-            steps.append(['mutate', r.randrange(8), r.pick(['kv-default', 'kv-delete', 'add-kv', 'rename', 'io-type', 'resources', 'base'])])
+            steps.append(['mutate', r.randrange(8), r.pick(['kv-default', 'kv-delete', 'add-kv', 'rename', 'io-type', 'resources', 'base', 'views', 'views'])])
         else:
             steps.append(['engine_classes'])
     if r.chance(0.1):      # a full load interleaved at a seeded position (0.7 s each: kept to a tenth of the runs)
@@ -525,6 +543,18 @@ def _run_lazy(case, out: Outcome) -> Outcome:
                             ent.resources.append(Resource('mutated.mdl', FileType.MODEL))
                         else:
                             ent.resources = [Resource('mutated.mdl', FileType.MODEL)]
+                    elif how == 'views':
+                        # edits through the .kv / .inp / .out views of the copy the caller was handed
+                        for view, cls in ((ent.kv, KVDef), (ent.inp, IODef), (ent.out, IODef)):
+                            names = list(getattr(ent, view._attr))
+                            for nm in names[:2]:
+                                try:
+                                    view[nm].desc = 'MUTATED-THROUGH-VIEW'
+                                except Exception:
+                                    pass
+                            for nm in names[2:3]:
+                                del view[nm]
+                            view['mutated_view_item'] = KVDef('mutated_view_item', ValueTypes.STRING) if cls is KVDef else IODef('mutated_view_item')
                     elif how == 'base':
                         for b in ent.bases:
                             if isinstance(b, EntityDef):
